@@ -9,71 +9,39 @@ PID = "C06"
 
 
 def _classify(line, tags):
-    w = [sum(d * 32768 ** (9 - i) for i, d in enumerate(x)) for x in line["w"]]
-    return {"op": line["op"], "tags": sorted(set(tags)), "total": sum(w), "total_above_2p53": sum(w) > 2 ** 53}
+    total = sum(tables.big(x) for x in line["w"])
+    sig = {"op": line["op"], "tags": tags, "total_above_2p53": total > 2 ** 53}
+    return sig, "real quorum functions disagree with Quorum.tla on a %s line (total weight %d): %s" % (
+        line["op"], total, ",".join(tags))
 
 
-def _run(rep, tier, seed, trace_in=None):
-    wd = vlib.scratch_dir("c06")
-    try:
-        if trace_in is None:
-            cfg = "MC_Quorum_quick.cfg" if tier == "quick" else "MC_Quorum_thorough.cfg"
-            r = vlib.tlc_must_pass("MC_Quorum", cfg, timeout=1200)
-            if r.violated:
-                raise vlib.Inconclusive("design-level laws fail in Quorum.tla itself (%s): spec bug" % r.violated)
-            rep.add_tlc(r, "Quorum.tla laws on every weight vector (%s)" % cfg)
-            trace = os.path.join(wd, "quorum.ndjson")
-            n = 1500 if tier == "quick" else 12000
-            vlib.run_harness(["quorum", "-out", trace, "-seed", seed, "-small", n, "-big", n], cwd=wd)
-        else:
-            trace = os.path.join(wd, "quorum.ndjson")
-            vlib.run_harness(["quorum", "-out", trace, "-replay", trace_in], cwd=wd)
-        lines, bad = tables.validate(rep, trace, "Trace_Quorum", "Trace_Quorum.cfg", wd)
-        for e in lines[:3]:
-            rep.sample({k: e[k] for k in e if k != "w"} | {"n_members": len(e["w"])})
-        for e in lines:
-            rep.distinct.add(json.dumps([e["w"], e.get("ids"), e.get("a"), e.get("b")]))
-        seen = set()
-        for l in sorted(bad):
-            line = lines[l - 1]
-            sig = _classify(line, bad[l])
-            k = vlib.known_match(PID, sig)
-            key = json.dumps(sig["tags"]) + str(sig["total_above_2p53"])
-            if k:
-                if k["id"] not in seen:
-                    seen.add(k["id"])
-                    rep.known.append("%s: %s" % (k["id"], k["what"]))
-                continue
-            if key in seen:
-                continue
-            seen.add(key)
-            path = vlib.save_replay(PID, "line%d_seed%d" % (l, rep.seed), {"property": PID, "kind": "quorum-line", "line": line, "failed": sig})
-            rep.violation(path, "real quorum functions disagree with Quorum.tla on %s (total weight %d): %s" % (
-                line["op"], sig["total"], ",".join(sig["tags"])))
-        rep.extra["bad_lines"] = len(bad)
-    finally:
-        shutil.rmtree(wd, ignore_errors=True)
+def _table(rep, tier, seed, replay_in=None):
+    n = 1500 if tier == "quick" else 12000
+    tables.run_table(rep, PID, "quorum", ["-seed", seed, "-small", n, "-big", n], "Trace_Quorum", "Trace_Quorum.cfg",
+                     _classify, replay_in=replay_in, sample_keys=["op", "ids", "a", "b", "isq", "hh", "q", "f"],
+                     distinct_key=lambda e: [e["w"], e.get("ids"), e.get("a"), e.get("b")])
 
 
 def run(tier, seed):
     rep = vlib.Report(PID, tier, seed)
     rep.assumptions = ["weight totals fit in 64 bits (as the property states)",
                        "BigNat.tla limb arithmetic is the transcription of Quorum.tla's integer definitions",
-                       "laws over unbounded totals rest on the arithmetic being checked exactly per call (f, Q recomputed by TLC)"]
-    _run(rep, tier, seed)
+                       "laws over unbounded totals rest on f and Q being recomputed exactly by TLC for every recorded call"]
+    cfg = "MC_Quorum_quick.cfg" if tier == "quick" else "MC_Quorum_thorough.cfg"
+    r = vlib.tlc_must_pass("MC_Quorum", cfg, timeout=1800)
+    if r.violated:
+        raise vlib.Inconclusive("design-level laws fail in Quorum.tla itself (%s): spec bug" % r.violated)
+    rep.add_tlc(r, "Quorum.tla laws on every weight vector (%s)" % cfg)
+    _table(rep, tier, seed)
     return rep.finish()
 
 
 def replay(path, seed):
     rep = vlib.Report(PID, "quick", seed)
+    rep.replay_of = path
     wd = vlib.scratch_dir("c06r")
-    src = os.path.join(wd, "in.ndjson")
-    with open(path) as f:
-        payload = json.load(f)
-    with open(src, "w") as f:
-        f.write(json.dumps(payload["line"]) + "\n")
     try:
-        _run(rep, "quick", seed, trace_in=src)
+        _table(rep, "quick", seed, replay_in=tables.replay_line(json.load(open(path)), wd))
     finally:
         shutil.rmtree(wd, ignore_errors=True)
     return rep.finish()
